@@ -1,3 +1,101 @@
-From Iodine Require Import Codec.
-Theorem C07_placeholder : True. Proof. exact I. Qed.
-Print Assumptions C07_placeholder.
+(* Properties_C07.v -- final statements for property C07 (codecs lossless, alphabet-pure,
+   capacity-exact).  Only statements, each closed by [exact]/[apply] of a lemma from
+   CodecProofs.v, with Print Assumptions beneath.  "the four codecs" is the explicit list. *)
+From Coq Require Import List NArith Arith Lia.
+From Iodine Require Import Base Codec CodecProofs.
+Import ListNotations.
+Local Open Scope N_scope.
+
+Definition the_codec (c : codec) : Prop := c = b32 \/ c = b64 \/ c = b64u \/ c = b128.
+
+Lemma the_codec_wf c : the_codec c -> wfb c = true.
+Proof. intros [->|[->|[->| ->]]]; [exact wfb_b32|exact wfb_b64|exact wfb_b64u|exact wfb_b128]. Qed.
+
+(* decoding the encoding returns exactly the input bytes that the encoder reports as consumed,
+   for every capacity; with enough capacity that is the whole input *)
+Theorem C07_roundtrip : forall c, the_codec c -> forall (cap capd : nat) (d : list N),
+  bytes_ok d -> (snd (encode c cap d) <= capd)%nat ->
+  decode c capd (fst (encode c cap d)) = firstn (snd (encode c cap d)) d.
+Proof. intros c Hc cap capd d. exact (roundtrip c (the_codec_wf c Hc) cap capd d). Qed.
+Print Assumptions C07_roundtrip.
+
+Theorem C07_roundtrip_full : forall c, the_codec c -> forall (cap capd : nat) (d : list N),
+  bytes_ok d -> (enclen (cbits c) (length d) <= cap)%nat -> (length d <= capd)%nat ->
+  decode c capd (fst (encode c cap d)) = d.
+Proof.
+  intros c Hc cap capd d Hd Hcap Hcapd.
+  destruct (enc_full c (the_codec_wf c Hc) cap d Hcap) as [Hn _].
+  rewrite (roundtrip c (the_codec_wf c Hc) cap capd d Hd) by lia.
+  rewrite Hn. apply firstn_all.
+Qed.
+Print Assumptions C07_roundtrip_full.
+
+(* only the documented alphabet *)
+Theorem C07_alphabet_32 : forall cap d, Forall (fun ch => alpha32b ch = true) (fst (encode b32 cap d)).
+Proof. apply (alpha_from_sweep b32 alpha32b wfb_b32). vm_compute. reflexivity. Qed.
+Print Assumptions C07_alphabet_32.
+Theorem C07_alphabet_64 : forall cap d, Forall (fun ch => alpha64b ch = true) (fst (encode b64 cap d)).
+Proof. apply (alpha_from_sweep b64 alpha64b wfb_b64). vm_compute. reflexivity. Qed.
+Print Assumptions C07_alphabet_64.
+Theorem C07_alphabet_64u : forall cap d, Forall (fun ch => alpha64ub ch = true) (fst (encode b64u cap d)).
+Proof. apply (alpha_from_sweep b64u alpha64ub wfb_b64u). vm_compute. reflexivity. Qed.
+Print Assumptions C07_alphabet_64u.
+Theorem C07_alphabet_128 : forall cap d, Forall (fun ch => alpha128b ch = true) (fst (encode b128 cap d)).
+Proof. apply (alpha_from_sweep b128 alpha128b wfb_b128). vm_compute. reflexivity. Qed.
+Print Assumptions C07_alphabet_128.
+
+(* Base32 text decodes case-insensitively *)
+Theorem C07_case_insensitive_32 : forall cap s, bytes_ok s ->
+  decode b32 cap (map toupper s) = decode b32 cap s.
+Proof. intros cap s. exact (dec32_upper cap 0 s). Qed.
+Print Assumptions C07_case_insensitive_32.
+
+(* capacity is respected by encoder and decoder; consumed never exceeds the input *)
+Theorem C07_capacity : forall c, the_codec c -> forall cap capd d s,
+  (length (fst (encode c cap d)) <= cap)%nat /\ (snd (encode c cap d) <= length d)%nat /\
+  (length (decode c capd s) <= capd)%nat.
+Proof.
+  intros c Hc cap capd d s. destruct (enc_go_len c cap 0 d) as [H1 H2].
+  repeat split; [exact H1|exact H2|apply dec_go_cap].
+Qed.
+Print Assumptions C07_capacity.
+
+(* documented length ratio: ceil(8n/5), ceil(8n/6) = ceil(4n/3), ceil(8n/7) *)
+Theorem C07_ratio : forall c, the_codec c -> forall cap d,
+  (enclen (cbits c) (length d) <= cap)%nat ->
+  length (fst (encode c cap d)) = enclen (cbits c) (length d) /\ snd (encode c cap d) = length d.
+Proof. intros c Hc cap d H. destruct (enc_full c (the_codec_wf c Hc) cap d H). split; assumption. Qed.
+Print Assumptions C07_ratio.
+
+(* the reported consumed count n is exact: the emitted text has the documented length for n
+   bytes, fits the capacity, and one more input byte would not have fitted *)
+Theorem C07_consumed_exact : forall c, the_codec c -> forall cap d,
+  let n := snd (encode c cap d) in
+  length (fst (encode c cap d)) = enclen (cbits c) n /\ (enclen (cbits c) n <= cap)%nat /\
+  (n <= length d)%nat /\
+  (forall m, (n < m <= length d)%nat -> (cap < enclen (cbits c) m)%nat).
+Proof.
+  intros c Hc cap d. cbv zeta.
+  destruct (enc_exact c (the_codec_wf c Hc) cap d) as [G1 [G2 [G3 [G4 G5]]]].
+  repeat split; try lia.
+  intros m Hm. assert (Hlt : (snd (encode c cap d) < length d)%nat) by lia.
+  specialize (G5 Hlt).
+  pose proof (enclen_mono c (the_codec_wf c Hc) (S (snd (encode c cap d))) m). lia.
+Qed.
+Print Assumptions C07_consumed_exact.
+
+(* successive chunks with any capacity >= 2 terminate and lose / repeat nothing *)
+Theorem C07_chunks : forall c, the_codec c -> forall cap d, (2 <= cap)%nat -> bytes_ok d ->
+  exists ss, chunks c cap (length d) d = Some ss /\
+             concat (map (fun s => decode c (length s) s) ss) = d /\
+             Forall (fun s => (length s <= cap)%nat) ss.
+Proof. intros c Hc cap d Hcap Hd. apply (chunks_ok c (the_codec_wf c Hc) cap Hcap); [exact Hd|lia]. Qed.
+Print Assumptions C07_chunks.
+
+(* non-vacuity: concrete, non-trivial instances (capacity cut in the middle of a block) *)
+Example C07_example_cut :
+  encode b32 4 [104; 101; 108; 108; 111] = ([110; 98; 115; 119], 2%nat) /\
+  decode b32 2 [110; 98; 115; 119] = [104; 101] /\
+  encode b128 3 [255; 0; 255] = ([253; 190; 70], 2%nat) /\
+  bytes_ok [104; 101; 108; 108; 111].
+Proof. repeat split; try (vm_compute; reflexivity). repeat constructor. Qed.
